@@ -301,7 +301,7 @@ func (c1 int64Const) unaryOp(op ast.OperatorType, typ reflect.Type) (constant, e
 
 func (c1 int64Const) binaryOp(op ast.OperatorType, c2 constant) (constant, error) {
 	if op == ast.OperatorLeftShift || op == ast.OperatorRightShift {
-		if err := shiftConstError(op, c2); err != nil {
+		if err := shiftConstError(op, c1.zero(), c2); err != nil {
 			return nil, err
 		}
 		sc := uint(c2.uint64())
@@ -505,7 +505,7 @@ func (c1 intConst) unaryOp(op ast.OperatorType, typ reflect.Type) (constant, err
 
 func (c1 intConst) binaryOp(op ast.OperatorType, c2 constant) (constant, error) {
 	if op == ast.OperatorLeftShift || op == ast.OperatorRightShift {
-		if err := shiftConstError(op, c2); err != nil {
+		if err := shiftConstError(op, c1.zero(), c2); err != nil {
 			return nil, err
 		}
 		sc := uint(c2.uint64())
@@ -1306,14 +1306,21 @@ var errShiftCountTooLarge = errors.New("shift count too large")
 var errShiftCountTruncatedToInteger = errors.New("shift count truncated to integer")
 var errConstantOverflowUint = errors.New("constant overflows uint")
 
+// maxConstShiftCount is the maximum shift count of a constant shift
+// expression. It is the same of the gc compiler.
+const maxConstShiftCount = 1023 - 1 + 52
+
 // shiftConstError returns an error that explain why c cannot be used as the
-// right operand in the shift expression op. Returns nil if c can be used.
-func shiftConstError(op ast.OperatorType, c constant) error {
+// right operand in the shift expression op. zero reports whether the left
+// operand is zero. Returns nil if c can be used.
+func shiftConstError(op ast.OperatorType, zero bool, c constant) error {
 	if c, _ := c.representedBy(uintType); c != nil {
-		if op == ast.OperatorLeftShift {
-			if ok, _ := c.binaryOp(ast.OperatorGreaterEqual, int64Const(512)); ok.bool() {
-				return errShiftCountTooLarge
-			}
+		limit := int64Const(maxConstShiftCount + 1)
+		if op == ast.OperatorLeftShift && !zero {
+			limit = 512
+		}
+		if ok, _ := c.binaryOp(ast.OperatorGreaterEqual, limit); ok.bool() {
+			return errShiftCountTooLarge
 		}
 		return nil
 	}
